@@ -74,8 +74,18 @@ REQUIRED_THEOREMS = [
     "C12.old_F10_check_counterexample",
     "C12.old_value_from_own_version_false",
     "C12.fixed_on_the_witnesses",
+    "C12.extract_write_roundtrip",
+    "C12.torn_reads",
+    "C12.intact_same_iff",
+    "C12.torn_same_only_for_prefix",
+    "C12.torn_never_untracked",
+    "C12.torn_prefix_version_witness",
 ]
 TRUSTED_EXTRA = [
+    "text layer of func_code.py (JoblibModel.FuncCodeText): texts are code points; UTF-8 is a parameter (a byte prefix decodes to a "
+    "code-point prefix or raises UnicodeDecodeError, a ValueError); int() is modelled for ASCII fields up to 4000 characters (the "
+    "model abstains on non-ASCII digits / white space, counted in the evidence as text:model-abstains); what a torn file means for "
+    "the cache (clear and rewrite) is the history model's `damage` operation",
     "modelled, not verified: a source text determines the function's behaviour (closures over differing captured values, differing "
     "defaults at equal text and lambdas sharing a line are outside the domain of the property); func_inspect.get_func_code returns "
     "the text of the def block (validated by the correspondence for module-level, nested, __main__ and lambda definitions, and after "
@@ -1090,6 +1100,129 @@ def _interrupt_probe(ctx, res):
             res.fail(f"{e[1]}:module:wipe-interrupted-before-func-code-removed", case, dict(phase2=outs[1], phase3=outs[2]))
 
 
+
+# ----------------------------------------------------------------------------- the text layer of func_code.py
+
+MARKER_CP = [35, 32, 102, 105, 114, 115, 116, 32, 108, 105, 110, 101, 58]  # what the MODEL has for FIRST_LINE_TEXT
+_TEXT_ALPHABET = ["\n", "\n", " ", "\r", "\t", "#", ":", "0", "7", "-", "+", "_", "d", "e", "f", "(", ")", "é", "\U0001f600", "\x1c", "\x00"]
+_LINE_NUMBERS = [-1, -1, 0, 1, 9, 10, 42, 99, 100, 12345, 10 ** 20, -7, -120]
+_NUMBER_FIELDS = ["", " ", " 12", "12", " 1_0", " 1__0", " _1", " 1_", " +5", " -5", " - 5", " 0007", "\t8\r", " 1 2", " 12abc", " \x1c3",
+                  " ٣", " ١٢", " 1 ", " 1\x00", " 0x10", " 1e3", " 1.0", " --1", "  \t 44  "]
+
+
+def _cps(t):
+    return " ".join(str(ord(c)) for c in t) if t else "-"
+
+
+def _from_cps(tokens):
+    return "" if tokens == ["-"] or not tokens else "".join(chr(int(x)) for x in tokens)
+
+
+def _text_stream(ctx, res):
+    """`_write_func_code`'s format, `extract_first_line`'s parse: the real functions against `JoblibModel.FuncCodeText`
+    on generated sources and line numbers, intact and cut at every length; plus an oracle that does not use the model:
+    the round trip, and `a torn file never reads as the source that was being written`."""
+    joblib = core.use_repo()
+    import joblib.memory as jm
+    rng = ctx.rng("text")
+    marker = jm.FIRST_LINE_TEXT
+    mem = joblib.Memory(os.path.join(str(ctx.scratch), "textlayer"), verbose=0)
+
+    def _f(x):
+        return x
+    cf = mem.cache(_f)
+    fc_path = os.path.join(cf.store_backend.location, cf.func_id, "func_code.py")
+
+    def impl_write(n, code):
+        try:
+            cf._write_func_code(code, n)
+            with open(fc_path, "rb") as f:
+                return ("text", f.read().decode("utf-8"))
+        except Exception as e:  # noqa: BLE001
+            return ("raise", type(e).__name__)
+
+    def impl_extract(t):
+        try:
+            c, n = jm.extract_first_line(t)
+            return ("ok", n, c)
+        except ValueError:
+            return ("valueerror",)
+        except Exception as e:  # noqa: BLE001
+            return ("raise", type(e).__name__)
+
+    n_src = 220 if ctx.thorough else 45
+    sources = ["", "def f(x):\n    return x\n", marker + " 3\nx", "# first line", "\n", "\n\n", "a\r\nb", "é", "def f():\n  return 12"]
+    while len(sources) < n_src:
+        k = rng.choice([0, 1, 2, 3, 5, 8, 13, 30])
+        t = "".join(rng.choice(_TEXT_ALPHABET) for _ in range(k))
+        if rng.random() < 0.15:
+            t = marker + t
+        sources.append(t)
+    lines, meta = [], []
+    for code in sources:
+        n = rng.choice(_LINE_NUMBERS)
+        w = impl_write(n, code)
+        lines.append(f"text-write {n} {_cps(code)}".rstrip())
+        meta.append(("write", dict(first_line=n, code=code), w))
+        if w[0] != "text":
+            continue
+        full = w[1]
+        # oracle (no model): round trip
+        r = impl_extract(full)
+        res.evaluations += 1
+        if r != ("ok", n, code):
+            res.fail("func-code-text:round-trip-broken", dict(kind="text", first_line=n, code=code), dict(read_back=r))
+        cuts = range(len(full) + 1) if len(full) <= 60 else sorted(set(list(range(0, 24)) + [rng.randrange(len(full)) for _ in range(12)] + [len(full) - 1, len(full)]))
+        for k in cuts:
+            p = full[:k]
+            r = impl_extract(p)
+            lines.append(f"text-extract {_cps(p)}".rstrip())
+            meta.append(("extract", dict(first_line=n, code=code, cut=k, of=len(full)), r))
+            res.evaluations += 1
+            res.count("text:cut-in-" + ("marker" if k < len(marker) else "first-line" if "\n" not in p else "source" if k < len(full) else "nothing(intact)"))
+            if k < len(full):
+                # oracle (no model): a torn file must not read as the source that was being written (a real source is
+                # neither empty nor a fragment of the marker); any exception other than ValueError escapes the guard of
+                # _check_previous_func_code
+                if r[0] == "raise":
+                    res.fail("func-code-text:torn-file-raises:" + r[1], dict(kind="text", first_line=n, code=code, cut=k), dict(read=r))
+                elif r[0] == "ok" and r[2] == code and code != "" and not marker.startswith(code):
+                    res.fail("func-code-text:torn-file-reads-as-the-written-source", dict(kind="text", first_line=n, code=code, cut=k), dict(read=r))
+    # hostile first lines
+    for fld in _NUMBER_FIELDS:
+        for tail in ("", "\nx = 1", "\n"):
+            t = marker + fld + tail
+            r = impl_extract(t)
+            lines.append(f"text-extract {_cps(t)}".rstrip())
+            meta.append(("extract", dict(field=fld, tail=tail), r))
+            res.evaluations += 1
+            res.count("text:number-field")
+    out = ctx.driver().run(lines)
+    res.traces_validated += 1
+    agree = 0
+    for (kind, case, impl), ans in zip(meta, out):
+        toks = ans.split(" ")
+        if ans == "untracked":
+            res.count("text:model-abstains")
+            continue
+        if kind == "write":
+            model = ("text", _from_cps(toks[1:])) if toks[0] == "text" else ("?", ans)
+        elif toks[0] == "ok":
+            model = ("ok", int(toks[1]), _from_cps(toks[2:]))
+        elif ans == "valueerror":
+            model = ("valueerror",)
+        else:
+            model = ("?", ans)
+        if model != impl:
+            res.diverge("text", dict(kind="text", op=kind, **case), [str(x) for x in impl], [str(x) for x in model])
+        else:
+            agree += 1
+            res.nontrivial.add(("text", kind, impl[0], case.get("cut", -1) if isinstance(case.get("cut"), int) and case.get("cut", 99) < 20 else "far", len(case.get("code", ""))))
+    res.count("text:agreements", agree)
+    if [ord(c) for c in marker] != MARKER_CP:
+        res.notes.append(f"FIRST_LINE_TEXT is now {marker!r}: the text-layer model still has '# first line:' (every comparison of the text stream goes through the real constant, so this shows as divergences there)")
+    res.sample(dict(stream="text", requests=lines[:3], answers=out[:3]))
+
 def run(ctx):
     if ctx.replay and (ctx.replay.get("case") or {}).get("kind") == "reload-probe":
         res = Result()
@@ -1113,6 +1246,7 @@ def run(ctx):
     res = explore(ctx, [("main", 2500), ("multi", 4000), ("alias", 400)] if ctx.thorough else [("main", 450), ("multi", 260), ("alias", 30)])
     _reload_probe(ctx, res)
     _interrupt_probe(ctx, res)
+    _text_stream(ctx, res)
     return res
 
 
